@@ -234,6 +234,11 @@ pub fn tokenize_expression(input: &str) -> Result<Vec<Token>, CompilerError> {
 
 pub fn parse_expression(input: &str) -> Result<Expression, CompilerError> {
     let tokens = tokenize_expression(input)?;
+    if tokens.len() > MAX_EXPRESSION_TOKENS {
+        return Err(CompilerError::invalid_source(format!(
+            "expression is too long (more than {MAX_EXPRESSION_TOKENS} tokens)"
+        )));
+    }
     let mut parser = ExpressionParser::new(tokens);
     let expression = parser.parse_expression()?;
 
@@ -318,14 +323,24 @@ pub fn split_top_level_commas(input: &str) -> Vec<&str> {
     parts
 }
 
+/// The parser, the validator and the emitter all walk expressions recursively:
+/// nesting and length are bounded so that no input can exhaust the stack.
+const MAX_EXPRESSION_DEPTH: usize = 128;
+const MAX_EXPRESSION_TOKENS: usize = 4096;
+
 struct ExpressionParser {
     tokens: Vec<Token>,
     current: usize,
+    depth: usize,
 }
 
 impl ExpressionParser {
     fn new(tokens: Vec<Token>) -> Self {
-        Self { tokens, current: 0 }
+        Self {
+            tokens,
+            current: 0,
+            depth: 0,
+        }
     }
 
     fn parse_expression(&mut self) -> Result<Expression, CompilerError> {
@@ -502,11 +517,21 @@ impl ExpressionParser {
     }
 
     fn parse_unary(&mut self) -> Result<Expression, CompilerError> {
-        if self.match_token(&Token::Bang) {
-            let expr = self.parse_unary()?;
-            return Ok(Expression::Not(Box::new(expr)));
+        // Every level of nesting (unary operators, parentheses, call arguments)
+        // passes through here.
+        self.depth += 1;
+        if self.depth > MAX_EXPRESSION_DEPTH {
+            return Err(CompilerError::invalid_source(format!(
+                "expression is nested too deeply (more than {MAX_EXPRESSION_DEPTH} levels)"
+            )));
         }
-        self.parse_primary()
+        let expression = if self.match_token(&Token::Bang) {
+            self.parse_unary().map(|expr| Expression::Not(Box::new(expr)))
+        } else {
+            self.parse_primary()
+        };
+        self.depth -= 1;
+        expression
     }
 
     fn parse_primary(&mut self) -> Result<Expression, CompilerError> {
